@@ -351,12 +351,78 @@ def case_sub(ctx, i, rng):
             return
 
 
+def case_save(ctx, i, rng):
+    """link targets stay out of everything save() writes: the main file and the sub-files of arguments that were loaded from
+    their own config file (multi-file save)"""
+    import shutil
+
+    import yaml
+
+    from vf.fixtures import zoo
+
+    root = os.path.join(ctx.workdir, f"sv{i % 4}")
+    shutil.rmtree(root, ignore_errors=True)
+    os.makedirs(os.path.join(root, "in"))
+    os.makedirs(os.path.join(root, "out"))
+    p = ArgumentParser(exit_on_error=False)
+    p.add_argument("--cfg", action=ActionConfigFile)
+    p.add_argument("--src", type=int, default=1)
+    p.add_argument("--m", type=zoo.Base, enable_path=True)
+    p.add_class_arguments(zoo.SubA, "grp", sub_configs=True)
+    p.link_arguments("src", "m.init_args.a", compute_fn=double if rng.random() < 0.5 else None)
+    p.link_arguments("src", "grp.a")
+    with open(os.path.join(root, "in", "m.yaml"), "w") as f:
+        yaml.safe_dump({"class_path": "vf.fixtures.zoo.SubA", "init_args": {"b": "fromfile"}}, f)
+    with open(os.path.join(root, "in", "grp.yaml"), "w") as f:
+        yaml.safe_dump({"b": "grpfile"}, f)
+    src = rng.randrange(2, 50)
+    old = os.getcwd()
+    os.chdir(os.path.join(root, "in"))
+    try:
+        o = call(p.parse_args, [f"--src={src}", "--m", "m.yaml", "--grp", "grp.yaml"])
+    finally:
+        os.chdir(old)
+    ctx.count("mon.save_checked")
+    ctx.evaluation(("save", src % 3))
+    w = dict(src=src)
+    if not o.accepted:
+        ctx.violation("link", f"parse-with-sub-config-files-rejected/{o.exc_type}", dict(w, outcome=o.brief()))
+        return
+    multifile = rng.random() < 0.7
+    os_ = call(p.save, o.value, os.path.join(root, "out", "main.yaml"), multifile=multifile)
+    if not os_.accepted:
+        ctx.violation("link", f"save-failed/{os_.exc_type}", dict(w, outcome=os_.brief()))
+        return
+    for fn in sorted(os.listdir(os.path.join(root, "out"))):
+        with open(os.path.join(root, "out", fn)) as f:
+            doc = yaml.safe_load(f)
+        where = "main-file" if fn == "main.yaml" else "sub-file"
+        leaked = []
+        if isinstance(doc, dict):
+            if fn == "main.yaml":
+                if isinstance(doc.get("m"), dict) and "a" in (doc["m"].get("init_args") or {}):
+                    leaked.append("m.init_args.a")
+                if isinstance(doc.get("grp"), dict) and "a" in doc["grp"]:
+                    leaked.append("grp.a")
+            else:
+                if "a" in (doc.get("init_args") or {}) or "a" in doc:
+                    leaked.append(fn + ":a")
+        if leaked:
+            ctx.violation("link", f"target-in-saved-file/{where}/{'multifile' if multifile else 'single'}", dict(w, file=fn, content=short(doc, 300), leaked=leaked))
+            return
+    ob = call(p.parse_path, os.path.join(root, "out", "main.yaml"))
+    if not ob.accepted or ob.value.m.init_args.a != o.value.m.init_args.a or ob.value.grp.a != src:
+        ctx.violation("link", "reparse-of-saved-config-does-not-reconstruct-target", dict(w, outcome=ob.brief()))
+
+
 def run_shard(ctx):
     for k in list(os.environ):
         if k.startswith("APP_"):
             del os.environ[k]
     for i, rng in ctx.cases():
-        if i % 4 == 3:
+        if i % 8 == 5:
+            case_save(ctx, i, rng)
+        elif i % 4 == 3:
             case_sub(ctx, i, rng)
         else:
             case_flat(ctx, i, rng)
